@@ -111,7 +111,16 @@ def run(P, rep, tier):
             # the cadence k*(period+1) survives only if the counter is rewound at the wrap and at the first picture of the stream: the
             # innermost guard must be one of the two (a rewind under idr_flag lets a key frame forced by the application shift it)
             inner = [strip(cond) for kind, cond, line in f.ctl_chain(ev) if kind == 'if' and cond is not None][:1]
-            first_pic = bool(inner) and inner[0][0] == 'b' and inner[0][1] == '==' and pstr(strip(inner[0][3])) == '0' and (last_field(strip(inner[0][2])) or '').endswith('.picture_number')
+            def _conj(c):
+                c = strip(c)
+                return _conj(c[2]) + _conj(c[3]) if c is not None and c[0] == 'b' and c[1] == '&&' else [c]
+
+            def _is_first(c):
+                if c is None or c[0] == 'u' and c[1] == '!':
+                    return c is not None and (last_field(strip(c[2])) or '').endswith('.picture_number')
+                return c[0] == 'b' and c[1] == '==' and ((pstr(strip(c[3])) == '0' and (last_field(strip(c[2])) or '').endswith('.picture_number')) or
+                                                         (pstr(strip(c[2])) == '0' and (last_field(strip(c[3])) or '').endswith('.picture_number')))
+            first_pic = bool(inner) and any(_is_first(c) for c in _conj(inner[0]))
             if ok and inner and not gcmp and not first_pic:
                 rep.ob('C19.COUNTER', 'update@%s' % ev.get('l'), False, f.loc(ev),
                        'the period counter is rewound to 0 under %s: only the wrap (position == intra_period_length) and the first picture of the stream may rewind it; under this guard every picture that satisfies it (e.g. a key frame the application forces) restarts the period and the following refreshes leave the positions k*(period+1)' % pstr(inner[0])[:80])
